@@ -109,10 +109,16 @@ inductive Scan where
   | fin (cnt : Nat) (sep : Option Nat)
 deriving DecidableEq, Repr
 
+/-- `if let Some(low) = separator { if low < **key { … } }` -/
+def gapBefore (sep : Option Nat) (key : Nat) : Bool :=
+  match sep with
+  | some low => decide (low < key)
+  | none => false
+
 def scan {N : Type} (sep : Option Nat) (cnt : Nat) : Inner N → Scan
   | [] => .fin cnt sep
   | (key, e) :: t =>
-    if (match sep with | some low => decide (low < key) | none => false) then .unch cnt key
+    if gapBefore sep key then .unch cnt key
     else if e.inserted.isSome then .next cnt e.next
     else scan e.next (cnt + 1) t
 
